@@ -344,6 +344,12 @@ def handleHist (st : Stats) (line : String) (rest : List String) : IO Stats := d
           | .load a b d, .load a' b' d' =>
             if sameMultiset a a' && sameMultiset b b' && sameMultiset d d' then
               ms := { ms with q0 := a'.toArray, q1 := b'.toArray, done := d'.toArray }
+            else if os.atFin.isNone && !(os.q0.isEmpty && os.q1.isEmpty) &&
+                    sameMultiset (a.map fun e => { e with dt := 0 }) (a'.map fun e => { e with dt := 0 }) &&
+                    sameMultiset (b.map fun e => { e with dt := 0 }) (b'.map fun e => { e with dt := 0 }) then
+              -- crash restart: a file marked since it was last persisted carries the real time of day (markdone's write), which the
+              -- model does not fix; same messages per channel: adopt the implementation's due times (the oracle checks the known ones)
+              ms := { ms with q0 := a'.toArray, q1 := b'.toArray, done := d'.toArray }
             else if dis.isNone then dis := some s!"step {k}: model loads {showElts a}/{showElts b}/{showElts d}"
           | _, _ => if !(mev == ev) && dis.isNone then dis := some s!"step {k}: model event {repr mev}"
           match stp, ev with
